@@ -12,6 +12,8 @@ of {{ e }} (render, generate, render_async), and one compiled expression called 
 """
 import collections
 import collections.abc
+import enum
+import http
 import numbers
 import operator
 import random
@@ -174,6 +176,36 @@ class DotDict(dict):
             return DotDict()
 
 
+class Color(enum.IntEnum):
+    RED = 1
+    BLUE = 2
+
+
+class MyInt(int):
+    """user subclass of int (not bool)"""
+
+    def __repr__(self):
+        return "MyInt(%d)" % int(self)
+
+
+class MyFloat(float):
+    def __repr__(self):
+        return "MyFloat(%r)" % float(self)
+
+
+class MyList(list):
+    def __repr__(self):
+        return "MyList(%s)" % list.__repr__(self)
+
+
+class MyTuple(tuple):
+    def __repr__(self):
+        return "MyTuple(%s)" % tuple.__repr__(self)
+
+
+Point = collections.namedtuple("Point", "x y")
+
+
 class Falsy:
     def __bool__(self):
         return False
@@ -231,13 +263,16 @@ def wild_data(seed, log):
         "o1": o1, "o2": o2, "ar0": Raises("rt", RuntimeError, KeyError), "ar1": Raises("sub", MyAttrError, MyLookup), "ar2": Raises("val", AttributeError, ValueError),
         "ar3": Raises("attr-in-item", AttributeError, AttributeError), "ar4": Raises("type", AttributeError, TypeError), "po0": PropObj(), "dl0": Delegating(),
         "ev0": Everything(), "dd1": DotDict(a=DotDict(k="deep", b=DotDict()), k=r.choice([0, "v"]), zz=[1, 2]),
+        # instances of subclasses of int / float / list / tuple (str: UStr, Markup; dict: DotDict, OrderedDict, defaultdict)
+        "ie0": r.choice([Color.RED, Color.BLUE]), "hs0": http.HTTPStatus.OK, "mi0": MyInt(r.choice([0, 1, 2, 3])), "mf0": MyFloat(r.choice([0.0, 1.0, 2.5])),
+        "ml0": MyList(sc), "mt0": MyTuple(sc), "pt0": Point(1, "a"),
         "fz0": Falsy(), "ln0": Len0(), "fa": Rec("fa", log), "fb": Rec("fb", log),
     }
 
 
-NUM = ["i0", "fi", "f0", "b1", "b0"]
+NUM = ["i0", "fi", "f0", "b1", "b0", "ie0", "hs0", "mi0", "mf0"]
 STR = ["s0", "m0", "us0", "us1"]
-SEQ = ["l0", "t0", "gi0", "it0", "gen0", "itr0", "r0"]
+SEQ = ["l0", "t0", "gi0", "it0", "gen0", "itr0", "r0", "ml0", "mt0", "pt0"]
 MAP = ["d0", "mp0", "mpp0", "od0", "dd0"]
 OBJ = ["o1", "o2", "ns0", "ar0", "ar1", "ar2", "ar3", "ar4", "po0", "dl0", "ev0", "ev0", "dd1", "dd1"]
 TRUTH = ["fz0", "ln0", "n0", "u0"]
@@ -469,6 +504,9 @@ class Ref:
             return sum(list(v), 0) if self.is_async else sum(v, 0)
         if name == "safe":
             return Markup(v)
+        if name in ("select", "reject"):
+            keep = name == "select"
+            return [x for x in v if (bool(x) if not args else bool(self.test(args[0], x, list(args[1:])))) == keep]
         raise ValueError(name)
 
     def test(self, name, v, args):
@@ -536,11 +574,23 @@ class Ref:
             return v % 2 == 0
         if name == "divisibleby":
             return v % args[0] == 0
+        if name == "lower":
+            return str(v).islower()
+        if name == "upper":
+            return str(v).isupper()
+        if name == "escaped":
+            return hasattr(v, "__html__")
+        if name == "filter":
+            from jinja2.defaults import DEFAULT_FILTERS
+            return v in DEFAULT_FILTERS
+        if name == "test":
+            from jinja2.defaults import DEFAULT_TESTS
+            return v in DEFAULT_TESTS
         raise ValueError(name)
 
 
 FILTERS0 = ["length", "count", "first", "last", "list", "string", "upper", "lower", "abs", "join", "sum", "safe"]
-TESTS0 = ["defined", "undefined", "none", "number", "integer", "float", "boolean", "true", "false", "string", "mapping", "iterable", "sequence", "callable", "odd", "even"]
+TESTS0 = ["defined", "undefined", "none", "number", "integer", "float", "boolean", "true", "false", "string", "mapping", "iterable", "sequence", "callable", "odd", "even", "lower", "upper", "escaped", "filter", "test"]
 TESTS1 = ["sameas", "eq", "equalto", "ne", "lt", "lessthan", "gt", "greaterthan", "le", "ge", "in", "divisibleby"]
 KEYS = [("C", "a"), ("C", "k"), ("C", "zz"), ("C", "A"), ("C", "b"), ("C", "keys"), ("C", "items"), ("C", "get"), ("C", "count"), ("C", 0), ("C", 1), ("C", True), ("C", 1.0), ("C", 2),
         ("N", "us0"), ("N", "us1"), ("N", "m0"), ("N", "s0"), ("N", "i0"), ("N", "fi"), ("N", "b1"), ("N", "b0"), ("U", "neg", ("C", 1)), ("N", "n0"), ("N", "u0")]
@@ -865,7 +915,15 @@ def axis_consumers():
           lambda u: ("callx", N("fa"), [], [], None, u), lambda u: ("call", N("fa"), [], [("k", u)]), lambda u: ("call", (".", u, "a"), [], []), lambda u: (".", ("call", N("fa"), [u], []), "a"),
           lambda u: (".", F(u, "default", C(1)), "a"), lambda u: (".", (".", u, "a"), "b"), lambda u: ("[]", ("[]", u, C("a")), C("k")), lambda u: (".", ("[]", u, C(0)), "a"),
           lambda u: T(u, "defined"), lambda u: T(u, "iterable"), lambda u: T(u, "mapping"), lambda u: T(u, "sequence"), lambda u: T(u, "callable"), lambda u: T(u, "string"),
-          lambda u: T(u, "number"), lambda u: T(u, "none"), lambda u: T(u, "sameas", u), lambda u: T(C(1), "in", u), lambda u: ("cmp", C(1), [("in", u)]), lambda u: ("cmp", u, [("in", ("L", [C(1), u]))]),
+          lambda u: T(u, "number"), lambda u: T(u, "none"), lambda u: T(u, "sameas", u),
+          lambda u: T(u, "integer"), lambda u: T(u, "float"), lambda u: T(u, "boolean"), lambda u: T(u, "true"), lambda u: T(u, "false"), lambda u: T(u, "undefined"),
+          lambda u: T(u, "odd"), lambda u: T(u, "even"), lambda u: T(u, "divisibleby", C(2)), lambda u: T(u, "lower"), lambda u: T(u, "upper"), lambda u: T(u, "escaped"),
+          lambda u: T(u, "filter"), lambda u: T(u, "test"), lambda u: T(u, "eq", C(1)), lambda u: T(u, "ne", C(1)), lambda u: T(u, "lt", C(2)), lambda u: T(u, "ge", C(1)),
+          lambda u: T(u, "eq", u), lambda u: T(u, "in", ("L", [C(1), C("a"), C(2.5)])), lambda u: T(C(1), "eq", u), lambda u: T(C(1), "sameas", u),
+          lambda u: F(F(("L", [u, C(1), C(True), C(1.0), C("1")]), "select", C("integer")), "list"), lambda u: F(F(("L", [u, C(1), C(True), C(1.0)]), "reject", C("integer")), "list"),
+          lambda u: F(F(("L", [u, C(1.5), C(1)]), "select", C("float")), "list"), lambda u: F(F(("L", [u, C("a")]), "select", C("string")), "list"), lambda u: F(F(("L", [u, ("L", [])]), "select", C("sequence")), "list"),
+          lambda u: F(F(("L", [u, ("D", [])]), "select", C("mapping")), "list"), lambda u: F(F(("L", [u, C(3)]), "select", C("number")), "list"), lambda u: F(F(("L", [u, C(0)]), "select"), "list"),
+          lambda u: F(F(("L", [u, C(0)]), "reject"), "list"), lambda u: F(F(("L", [u, C(2)]), "select", C("eq"), u), "list"), lambda u: F(F(("L", [u, C(True)]), "reject", C("boolean")), "list"), lambda u: F(T(C(1), "in", u), "list"), lambda u: F(("cmp", C(1), [("in", u)]), "list"), lambda u: F(("cmp", u, [("in", ("L", [C(1), u]))]), "list"),
           lambda u: ("!", u), lambda u: ("&", u, C(1)), lambda u: ("|", u, C(1)), lambda u: ("?", u, C(1), C(2)), lambda u: ("?", C(0), C(1), u), lambda u: ("~", [u, C("x")]),
           lambda u: ("B", "add", u, C(1)), lambda u: ("B", "mul", u, C(2)), lambda u: ("B", "mod", C("%s"), u), lambda u: ("U", "neg", u), lambda u: ("cmp", u, [("eq", u)]),
           lambda u: ("cmp", u, [("lt", C(1))]), lambda u: ("L", [u]), lambda u: (".", ("D", [(C("k"), u)]), "k"), lambda u: F(("L", [u, u]), "first"), lambda u: F(("L", [u]), "join", C("-")),
